@@ -42,6 +42,7 @@ SEG_PARAMS = [
     {"k1": 1.0, "k2": 0.5, "n": 2.0, "c": 1.0, "m": 1.0},
     {"k1": 2.0, "k2": 0.5, "n": 3.0, "c": 1.0, "m": 1.5},
     {"k1": 2.0, "k2": 1.0, "n": 3.0, "c": 0.5, "m": 2.0},
+    {"k1": 1.0, "k2": 0.5, "n": 2.0, "c": 1.0, "m": 1.0},  # thorough tier: back to the first segment's values
 ]
 TAMPER = [{"k1": 9.0, "n": 7.0, "c": 3.0}, {"k2": 4.0, "n": 0.25, "m": 5.0}]
 
@@ -371,7 +372,7 @@ def run(ctx):
     frontier = []
     for variant in VARIANTS:
         set_variant(variant)
-        for nseg in (1, 2, 3):
+        for nseg in (1, 2, 3) if ctx.tier == "quick" else (1, 2, 3, 4):
             expected(nseg)  # computed once in the parent, inherited by the forked workers
             k = state_key(fresh_simulation(nseg))
             seen[(variant, nseg, k)] = []
